@@ -138,7 +138,7 @@ Proof.
   assert (Hold : forall m g k, kids h m g k ->
     ((m < next h')%nat /\ (k < next h')%nat) /\
     ((m < n0)%nat -> ((k < n0)%nat /\ forall q, R q m -> R q k) \/
-                     exists a, PS.In a (po H) /\ gamma n0 R h' a k) /\
+                     exists a, PS.In a (fm_look (po H) g) /\ gamma n0 R h' a k) /\
     ((n0 <= m)%nat -> exists a, PS.In a (hp_look (hp H) (site_of h' m) g) /\ gamma n0 R h' a k)).
   { intros m g k Hk. rewrite Hnext, Hsites. destruct (Hh m g k Hk) as [Hlt [Ho Hn]].
     split; [exact Hlt|]. split.
@@ -350,7 +350,7 @@ Theorem analyse_sound : forall p fd n0 st o st' v,
 Proof.
   intros p fd n0 st o st' v Han Hinit Hex m Hm Hlt.
   unfold analyse in Han.
-  set (H := infer_fix p DEPTH (fn_body fd) (entry_env fd) HEAPFUEL (mkheap [] [] aempty)) in Han.
+  set (H := infer_fix p DEPTH (fn_body fd) (entry_env fd) HEAPFUEL (mkheap [] [] [])) in Han.
   destruct (chk p H DEPTH (fn_body fd) (entry_env fd)) as [[E' w]|] eqn:Hc; [|discriminate Han].
   injection Han as ->.
   destruct (initial_Inv H fd n0 st v Hinit) as [Hinv Hlog].
